@@ -97,6 +97,14 @@ CHECKS.update({
         design="3/C20"),
 })
 
+CHECKS.update({
+    "C15": dict(
+        technique="property-based testing: exhaustive shared-property kind matrix in both member orders against a reference lattice (metamorphic order-independence + reference model), plus Hypothesis compositions with round-trip oracle",
+        text="All 276 unordered pairs of 23 property kinds are declared under one name by two allOf members and generated in both member orders; pairs that have a conjunction are additionally swept over every requiredness combination, member style (ref/inline) and a separately written required list. The composed attribute's type (read semantically from annotations) must be order-independent and the lattice's meet, or the pair must be diagnosed; mandatory iff any member requires. Random compositions (chains, parents after children, inherited-required, sibling-style own properties) check attribute set, requiredness and instance round trips.",
+        note="semantic comparison ignores inline-enum class names; a diagnostic is always acceptable where a meet exists; parent-class rewriting is labelled here and judged by C11",
+        design="3/C15"),
+})
+
 NOT_YET = {}
 
 def main():
